@@ -9,24 +9,35 @@
       BarrierImpl::acquire_async              (size() < expected-1 test, release in queue order, re-arm),
       MailboxImpl / CommImpl for blocking put/get without filters (FIFO rendez-vous).
     xbt_asserts of the implementation (unlock by a non-owner, condvar wait without owning the mutex) are the explicit
-    [st_crash] flag. *)
+    [st_crash] flag.
+
+    Timed operations: [Sleep d] and [AcquireT s d] (Semaphore::acquire_timeout, d in 1/8 s; SemAcquisitionImpl::wait_for
+    arms a sleep action when timeout >= 0, ::finish reports the timeout after ::cancel erased the acquisition from
+    ongoing_acquisitions_ *in place*: exactly that waiter leaves, the others keep their relative order).  A waiter with a
+    timer is blocked with [a_due = Some date]; its timer firing is the step of that (blocked) actor.
+    Two readings of time, chosen by the program ([p_timed]):
+      - untimed (the program contains Put/Get, whose durations are platform dependent and not modelled): sleeps are
+        skips, a pending timeout may fire at any moment (nondeterministic alternative to being granted in FIFO order);
+      - timed (every operation is either instantaneous or a dyadic sleep/timeout): discrete-event semantics with a
+        clock [st_now]; an actor step is possible only for ready actors and for timers whose date has come; the clock
+        jumps to the earliest pending date ([tick]) only when nothing else can happen. *)
 From SGV Require Import Base.Tactics.
 Local Open Scope Z_scope.
 
 Inductive op :=
 | Sleep (d : Z) | Lock (m : nat) | Unlock (m : nat) | Acquire (s : nat) | Release (s : nat)
 | CvWait (c m : nat) | NotifyOne (c : nat) | NotifyAll (c : nat) | BarWait (b : nat)
-| Put (mb : nat) (v : Z) | Get (mb : nat) | Skip.
+| Put (mb : nat) (v : Z) | Get (mb : nat) | Skip | AcquireT (s : nat) (d : Z).
 
 Record prog := mkP { p_nm : nat; p_sems : list Z; p_nc : nat; p_bars : list nat; p_nmb : nat; p_code : list (list op) }.
 
-Record actor := mkA { a_pc : nat; a_blk : bool; a_log : list Z }.          (* log: newest first *)
+Record actor := mkA { a_pc : nat; a_blk : bool; a_log : list Z; a_due : option Z }.   (* log: newest first; due: armed timer *)
 Record mutex := mkM { m_owner : option nat; m_q : list nat }.
 Record sem := mkS { s_val : Z; s_q : list nat }.
 Record bar := mkB { b_exp : nat; b_q : list nat }.
 Record mbox := mkMb { mb_s : list (nat * Z); mb_r : list nat }.
 Record state := mkSt { st_a : list actor; st_m : list mutex; st_s : list sem; st_c : list (list (nat * nat));
-                       st_b : list bar; st_mb : list mbox; st_crash : bool }.
+                       st_b : list bar; st_mb : list mbox; st_crash : bool; st_now : Z }.
 
 Fixpoint upd {A} (n : nat) (x : A) (l : list A) : list A :=
   match l, n with
@@ -35,25 +46,29 @@ Fixpoint upd {A} (n : nat) (x : A) (l : list A) : list A :=
   | y :: r, S k => y :: upd k x r
   end.
 
-Definition dA := mkA 0 false [].
+Definition dA := mkA 0 false [] None.
 Definition dM := mkM None [].
 Definition dS := mkS 0 [].
 Definition dB := mkB 1 [].
 Definition dMb := mkMb [] [].
 
-Definition set_a a x s := mkSt (upd a x (st_a s)) (st_m s) (st_s s) (st_c s) (st_b s) (st_mb s) (st_crash s).
-Definition set_m m x s := mkSt (st_a s) (upd m x (st_m s)) (st_s s) (st_c s) (st_b s) (st_mb s) (st_crash s).
-Definition set_s i x s := mkSt (st_a s) (st_m s) (upd i x (st_s s)) (st_c s) (st_b s) (st_mb s) (st_crash s).
-Definition set_c c x s := mkSt (st_a s) (st_m s) (st_s s) (upd c x (st_c s)) (st_b s) (st_mb s) (st_crash s).
-Definition set_b b x s := mkSt (st_a s) (st_m s) (st_s s) (st_c s) (upd b x (st_b s)) (st_mb s) (st_crash s).
-Definition set_mb b x s := mkSt (st_a s) (st_m s) (st_s s) (st_c s) (st_b s) (upd b x (st_mb s)) (st_crash s).
-Definition crash s := mkSt (st_a s) (st_m s) (st_s s) (st_c s) (st_b s) (st_mb s) true.
+Definition set_a a x s := mkSt (upd a x (st_a s)) (st_m s) (st_s s) (st_c s) (st_b s) (st_mb s) (st_crash s) (st_now s).
+Definition set_m m x s := mkSt (st_a s) (upd m x (st_m s)) (st_s s) (st_c s) (st_b s) (st_mb s) (st_crash s) (st_now s).
+Definition set_s i x s := mkSt (st_a s) (st_m s) (upd i x (st_s s)) (st_c s) (st_b s) (st_mb s) (st_crash s) (st_now s).
+Definition set_c c x s := mkSt (st_a s) (st_m s) (st_s s) (upd c x (st_c s)) (st_b s) (st_mb s) (st_crash s) (st_now s).
+Definition set_b b x s := mkSt (st_a s) (st_m s) (st_s s) (st_c s) (upd b x (st_b s)) (st_mb s) (st_crash s) (st_now s).
+Definition set_mb b x s := mkSt (st_a s) (st_m s) (st_s s) (st_c s) (st_b s) (upd b x (st_mb s)) (st_crash s) (st_now s).
+Definition crash s := mkSt (st_a s) (st_m s) (st_s s) (st_c s) (st_b s) (st_mb s) true (st_now s).
+Definition set_now t s := mkSt (st_a s) (st_m s) (st_s s) (st_c s) (st_b s) (st_mb s) (st_crash s) t.
 
 (** the simcall of actor [a] is answered with result [r]: it will run its next operation *)
 Definition complete (a : nat) (r : Z) (s : state) : state :=
-  let ac := nth a (st_a s) dA in set_a a (mkA (S (a_pc ac)) false (r :: a_log ac)) s.
+  let ac := nth a (st_a s) dA in set_a a (mkA (S (a_pc ac)) false (r :: a_log ac) None) s.
 Definition block (a : nat) (s : state) : state :=
-  let ac := nth a (st_a s) dA in set_a a (mkA (a_pc ac) true (a_log ac)) s.
+  let ac := nth a (st_a s) dA in set_a a (mkA (a_pc ac) true (a_log ac) None) s.
+(** blocked with a timer armed for date [t] (cpu->sleep(timeout) of ActorImpl::sleep / SemAcquisitionImpl::wait_for) *)
+Definition block_until (a : nat) (t : Z) (s : state) : state :=
+  let ac := nth a (st_a s) dA in set_a a (mkA (a_pc ac) true (a_log ac) (Some t)) s.
 
 (** Every kernel action returns the new state and the actors whose simcall was answered, in answer order
     (= the order in which they are appended to actors_to_run_). *)
@@ -89,9 +104,20 @@ Definition cv_wake (wm : nat * nat) (acc : R) : R :=
   | Some _ => (set_m m (mkM (m_owner mu) (m_q mu ++ [w])) s, ws)
   end.
 
-Definition exec (a : nat) (o : op) (s : state) : R :=
+(** [rm a q]: the queue without waiter [a], the others in their order (std::deque::erase of SemAcquisitionImpl::cancel) *)
+Definition rm (a : nat) (q : list nat) : list nat := filter (fun x => negb (Nat.eqb x a)) q.
+
+(** [tm]: timed reading (sleeps take time) *)
+Definition exec (tm : bool) (a : nat) (o : op) (s : state) : R :=
   match o with
-  | Sleep _ | Skip => (complete a 0 s, [a])
+  | Sleep d => if tm && (0 <? d) then (block_until a (st_now s + d) s, []) else (complete a 0 s, [a])
+  | Skip => (complete a 0 s, [a])
+  | AcquireT i d =>
+      let se := nth i (st_s s) dS in
+      if 0 <? s_val se then (complete a 0 (set_s i (mkS (s_val se - 1) (s_q se)) s), [a])
+      else let s1 := set_s i (mkS (s_val se) (s_q se ++ [a])) s in
+           if d <? 0 then (block a s1, [])                         (* wait_for: no timer when timeout < 0 *)
+           else (block_until a (st_now s + d) s1, [])
   | Lock m => mutex_lock m a s
   | Unlock m =>
       if owns m a s then let '(s1, ws) := mutex_release m s in (complete a 0 s1, ws ++ [a])
@@ -140,14 +166,33 @@ Definition exec (a : nat) (o : op) (s : state) : R :=
       end
   end.
 
-(** One step of actor [a]: defined iff the run has not crashed, [a] exists, is not blocked and has an operation left. *)
+(** The timer of blocked actor [a] (current operation [o]) fires: a timed acquisition leaves the queue and answers
+    "timed out" (1); a sleep is over. *)
+Definition fire (a : nat) (o : op) (s : state) : R :=
+  match o with
+  | AcquireT i _ => let se := nth i (st_s s) dS in (complete a 1 (set_s i (mkS (s_val se) (rm a (s_q se))) s), [a])
+  | _ => (complete a 0 s, [a])
+  end.
+
+Definition op_timed (o : op) : bool := match o with Put _ _ | Get _ => false | _ => true end.
+Definition p_timed (P : prog) : bool := forallb (forallb op_timed) (p_code P).
+(** may a timer armed for date [t] fire now? *)
+Definition due_ok (P : prog) (s : state) (t : Z) : bool := negb (p_timed P) || (t <=? st_now s).
+
+(** One step of actor [a]: defined iff the run has not crashed, [a] exists, has an operation left and is either not
+    blocked (it executes the operation) or blocked with a timer that may fire (the timer fires). *)
 Definition actor_step (P : prog) (a : nat) (s : state) : option R :=
   if st_crash s then None else
   match nth_error (st_a s) a, nth_error (p_code P) a with
   | Some ac, Some ops =>
-      if a_blk ac then None else
       match nth_error ops (a_pc ac) with
-      | Some o => Some (exec a o s)
+      | Some o =>
+          if a_blk ac then
+            match a_due ac with
+            | Some t => if due_ok P s t then Some (fire a o s) else None
+            | None => None
+            end
+          else Some (exec (p_timed P) a o s)
       | None => None
       end
   | _, _ => None
@@ -155,17 +200,42 @@ Definition actor_step (P : prog) (a : nat) (s : state) : option R :=
 
 Definition init (P : prog) : state :=
   mkSt (map (fun _ => dA) (p_code P)) (repeat dM (p_nm P)) (map (fun v => mkS v []) (p_sems P))
-       (repeat [] (p_nc P)) (map (fun n => mkB n []) (p_bars P)) (repeat dMb (p_nmb P)) false.
+       (repeat [] (p_nc P)) (map (fun n => mkB n []) (p_bars P)) (repeat dMb (p_nmb P)) false 0.
+
+Definition unfinished_b (P : prog) (s : state) (a : nat) : bool :=
+  match nth_error (st_a s) a, nth_error (p_code P) a with
+  | Some ac, Some ops => Nat.ltb (a_pc ac) (length ops)
+  | _, _ => false
+  end.
+
+(** Passage of time (timed reading only): when no actor can step, the clock jumps to the earliest armed timer. *)
+Definition due_of (P : prog) (s : state) (a : nat) : option Z :=
+  match nth_error (st_a s) a with
+  | Some ac => if unfinished_b P s a && a_blk ac then a_due ac else None
+  | None => None
+  end.
+Definition dues (P : prog) (s : state) : list Z :=
+  flat_map (fun a => match due_of P s a with Some t => [t] | None => [] end) (seq 0 (length (p_code P))).
+Definition quiescent (P : prog) (s : state) : bool :=
+  forallb (fun a => match actor_step P a s with Some _ => false | None => true end) (seq 0 (length (p_code P))).
+Definition tick (P : prog) (s : state) : option state :=
+  if negb (st_crash s) && p_timed P && quiescent P s then
+    match dues P s with
+    | [] => None
+    | t :: r => Some (set_now (fold_left Z.min r t) s)
+    end
+  else None.
 
 Definition succs (P : prog) (s : state) : list state :=
-  flat_map (fun a => match actor_step P a s with Some (s', _) => [s'] | None => [] end) (seq 0 (length (p_code P))).
+  flat_map (fun a => match actor_step P a s with Some (s', _) => [s'] | None => [] end) (seq 0 (length (p_code P)))
+  ++ match tick P s with Some s' => [s'] | None => [] end.
 
 Definition is_terminal (P : prog) (s : state) : bool :=
   match succs P s with [] => true | _ => false end.
 
 (** decidable equality of states (for the visited list) *)
 Definition actor_eq_dec : forall x y : actor, {x = y} + {x <> y}.
-Proof. decide equality; [apply (list_eq_dec Z.eq_dec) | apply bool_dec | apply Nat.eq_dec]. Defined.
+Proof. decide equality; [decide equality; apply Z.eq_dec | apply (list_eq_dec Z.eq_dec) | apply bool_dec | apply Nat.eq_dec]. Defined.
 Definition optnat_eq_dec : forall x y : option nat, {x = y} + {x <> y}.
 Proof. decide equality; apply Nat.eq_dec. Defined.
 Definition mutex_eq_dec : forall x y : mutex, {x = y} + {x <> y}.
@@ -183,7 +253,7 @@ Proof. decide equality; [apply (list_eq_dec Nat.eq_dec) | apply (list_eq_dec nat
 Definition state_eq_dec : forall x y : state, {x = y} + {x <> y}.
 Proof.
   decide equality;
-    [ apply bool_dec | apply (list_eq_dec mbox_eq_dec) | apply (list_eq_dec bar_eq_dec)
+    [ apply Z.eq_dec | apply bool_dec | apply (list_eq_dec mbox_eq_dec) | apply (list_eq_dec bar_eq_dec)
     | apply (list_eq_dec (list_eq_dec natnat_eq_dec)) | apply (list_eq_dec sem_eq_dec)
     | apply (list_eq_dec mutex_eq_dec) | apply (list_eq_dec actor_eq_dec) ].
 Defined.
@@ -208,11 +278,18 @@ Definition explore_all (fuel : nat) (P : prog) : option (list state) :=
 Definition explore (fuel : nat) (P : prog) : option (list state) :=
   match explore_all fuel P with Some V => Some (filter (is_terminal P) V) | None => None end.
 
-(** Replay of a schedule (list of actor ids = the order in which operations were started). *)
+(** Replay of a schedule (list of actor ids = the order in which operations were started and timers fired).  The
+    passage of time is implicit: when the scheduled actor cannot step, the clock ticks once (which is possible only if
+    nobody can step) and the actor must then be able to. *)
+Definition step_or_tick (P : prog) (a : nat) (s : state) : option R :=
+  match actor_step P a s with
+  | Some r => Some r
+  | None => match tick P s with Some s1 => actor_step P a s1 | None => None end
+  end.
 Fixpoint replay (P : prog) (sched : list nat) (s : state) : option state :=
   match sched with
   | [] => Some s
-  | a :: r => match actor_step P a s with Some (s', _) => replay P r s' | None => None end
+  | a :: r => match step_or_tick P a s with Some (s', _) => replay P r s' | None => None end
   end.
 
 (** Deterministic model of EngineImpl::run for untimed programs: sub-rounds over actors_to_run_; every actor of the list
@@ -240,12 +317,7 @@ Definition engine_run (fuel : nat) (P : prog) : option (state * list nat) :=
   | None => None
   end.
 
-(** The engine reports a deadlock when no actor can run and some actor has not terminated. *)
-Definition unfinished_b (P : prog) (s : state) (a : nat) : bool :=
-  match nth_error (st_a s) a, nth_error (p_code P) a with
-  | Some ac, Some ops => Nat.ltb (a_pc ac) (length ops)
-  | _, _ => false
-  end.
+(** The engine reports a deadlock when no actor can run, no timer is armed and some actor has not terminated. *)
 Definition deadlock_b (P : prog) (s : state) : bool :=
   negb (st_crash s) && is_terminal P s && existsb (unfinished_b P s) (seq 0 (length (p_code P))).
 
@@ -255,7 +327,7 @@ Definition decode_op (c a b : Z) : op :=
   if c =? 0 then Sleep a else if c =? 1 then Lock (zn a) else if c =? 2 then Unlock (zn a)
   else if c =? 3 then Acquire (zn a) else if c =? 4 then Release (zn a) else if c =? 5 then CvWait (zn a) (zn b)
   else if c =? 6 then NotifyOne (zn a) else if c =? 7 then NotifyAll (zn a) else if c =? 8 then BarWait (zn a)
-  else if c =? 9 then Put (zn a) b else if c =? 10 then Get (zn a) else Skip.
+  else if c =? 9 then Put (zn a) b else if c =? 10 then Get (zn a) else if c =? 19 then AcquireT (zn a) b else Skip.
 Fixpoint decode_ops (n : nat) (l : list Z) : list op * list Z :=
   match n with
   | O => ([], l)
